@@ -76,6 +76,7 @@ func genConnectPhase(t *rapid.T, allowKeepalive0 bool) gwsim.Script {
 	default:
 		sc.Auto.Connack = gwgen.U8(0)
 	}
+	maybeEager(t, &sc)
 	nex := rapid.IntRange(1, 3).Draw(t, "exchanges")
 	for x := 0; x < nex; x++ {
 		ka := uint16(60)
@@ -584,6 +585,7 @@ func genPreAdmission(t *rapid.T) gwsim.Script {
 	}
 	sc.Auto.BrokerAcks = true
 	sc.Auto.Suback = "grant"
+	maybeEager(t, &sc)
 	n := rapid.IntRange(1, 8).Draw(t, "n")
 	for i := 0; i < n; i++ {
 		var p snref.Pkt
